@@ -153,6 +153,33 @@ def _get_refined_sources(gr):
     return ok, "covered: %s" % ", ".join(sorted(covers))
 
 
+def tolerance_tests(prog, rep):
+    """A refinement method may return a point as converged only because the *magnitude* of its
+    residual psi(p) - psival is below the tolerance: in every refinePoint* method a quantity compared
+    with `atol` by `<` / `<=` is an absolute value, or the search-interval width `w` (which the
+    method keeps positive by construction).  A signed residual below a positive tolerance would
+    accept every point on the low-psi side of its surface."""
+    mod = prog.module(EQ)
+    n = 0
+    for qn, f in sorted(mod.funcs.items()):
+        if not (f.cls == "PsiContour" and f.name.startswith("refinePoint") and qn.count(".") == 1):
+            continue
+        for c in ast.walk(f.node):
+            if not (isinstance(c, ast.Compare) and len(c.ops) == 1 and isinstance(c.ops[0], (ast.Lt, ast.LtE, ast.Gt, ast.GtE))):
+                continue
+            l, r = c.left, c.comparators[0]
+            small, big = (l, r) if isinstance(c.ops[0], (ast.Lt, ast.LtE)) else (r, l)
+            if not any(isinstance(x, ast.Name) and x.id == "atol" for x in ast.walk(big)):
+                continue
+            n += 1
+            sv = inline_temporaries(f.node, small)
+            is_abs = isinstance(sv, ast.Call) and T(mod, sv.func) in ("numpy.abs", "abs", "numpy.fabs", "numpy.linalg.norm")
+            is_width = isinstance(small, ast.Name) and small.id == "w"
+            rep.ob("R1", "%s: the quantity accepted as below the tolerance in `%s` is a magnitude" % (f.qualname, T(mod, c)[:60]), is_abs or is_width, f.site(c),
+                   ("definite: `%s` is a signed quantity: every point with a negative residual counts as converged" % T(mod, small)[:60]) if not (is_abs or is_width) else "", key="typestate/tolerance/%s/%s" % (f.name, T(mod, big)[:40]))
+    rep.floor("R1.tolerance-tests", n, 4)
+
+
 def refine_point_exits(prog, rep):
     """exits of PsiContour.refinePoint: the input point is handed back unrefined only when the
     contour has no psi value at all (`self.psival is None`); every other exit returns what a
@@ -211,6 +238,7 @@ def r1(prog, rep):
     ok, detail = _get_refined_sources(gr)
     rep.ob("R1", "getRefined passes every point (first, interior, last) through refinePoint", ok, gr.site(), detail, key="typestate/getRefined")
     refine_point_exits(prog, rep)
+    tolerance_tests(prog, rep)
     names = ["MeshRegion.__init__", "MeshRegion.addPointAtWallToContours", "MeshRegion.distributePointsNonorthogonal"]
 
     def flow(f, summaries, sites):
